@@ -401,6 +401,77 @@ func (i *Inst) RunRelay(r *RlScript, tw *TraceWriter, rng *rand.Rand) error {
 				pre = false
 			}
 			tw.Line(M{"ev": "c2b", "transport": r.Transport, "decl": decl, "carr": carr, "got": len(got), "prefix": pre, "end": re.End, "hookbytes": re.FwdBytes, "skipped": re.Skipped})
+		case "burst":
+			// several well-formed DATA packets delivered to the gateway in ONE transport write
+			// (one websocket message / one HTTP chunk): the host must get the concatenated payloads
+			var sizes []int
+			if v, ok := a["sizes"].([]interface{}); ok {
+				for _, x := range v {
+					if f, ok := x.(float64); ok {
+						sizes = append(sizes, int(f))
+					}
+				}
+			}
+			var raw, want []byte
+			for _, n := range sizes {
+				pl := prng(rng.Int63(), n)
+				raw = append(raw, tsgu.Data(uint16(n), pl)...)
+				want = append(want, pl...)
+			}
+			mark := i.P.Mark()
+			if err := t.SendRaw(raw); err != nil {
+				return fmt.Errorf("action %d: %w", ai, err)
+			}
+			// the loop handles the packets it frames out of that write; wait until it is idle again or gone
+			steps, ended, sawRead := 0, false, false
+			deadline := time.Now().Add(10 * time.Second)
+			from := mark
+			for steps < len(sizes) && !ended {
+				idx, ev := i.P.Wait(from, time.Until(deadline), func(e gw.Event) bool {
+					return e.Cid == t.Cid && (e.Pt == "proc.step" || e.Pt == "proc.exit" || e.Pt == "tr.reading" || e.Pt == "tr.read")
+				})
+				if idx < 0 {
+					break
+				}
+				from = idx + 1
+				switch ev.Pt {
+				case "proc.step":
+					steps++
+				case "proc.exit":
+					ended = true
+					t.Exited = true
+				case "tr.read":
+					sawRead = true
+				case "tr.reading":
+					// idle again (after having read this write) although not all packets were handled: the rest was dropped.
+					// A tr.reading that precedes the read of this write belongs to the previous packet.
+					if sawRead && ev.Seq > 0 {
+						got := 0
+						for _, e := range i.P.Since(mark) {
+							if e.Cid == t.Cid && e.Pt == "tr.read" && e.Int(0) > 0 {
+								got += e.Int(0)
+							}
+						}
+						if got >= len(raw) {
+							steps = len(sizes) + 1
+						}
+					}
+				}
+			}
+			fwd := 0
+			for _, e := range i.P.Since(mark) {
+				if e.Cid == t.Cid && e.Pt == "relay.c2b" {
+					fwd += e.Int(0)
+				}
+			}
+			if fwd > 0 {
+				bc.WaitRecv(hostPos+fwd, 5*time.Second)
+			}
+			all := bc.Bytes()
+			got := all[hostPos:]
+			hostPos = len(all)
+			pre := len(got) <= len(want) && bytes.Equal(got, want[:len(got)])
+			tw.Line(M{"ev": "c2b", "transport": r.Transport, "decl": len(want), "carr": len(want), "got": len(got), "prefix": pre, "end": ended, "hookbytes": fwd, "skipped": false, "burst": len(sizes)})
 		case "bs":
 			n := num(a, "n", 1)
 			chunk := prng(prodSeed+int64(ai), n)
